@@ -166,7 +166,8 @@ ReleaseAll(st, i, S) ==
 (* ------------------------------------------------------------------ *)
 (* The aio_submit / aio_start coroutine, block by block                 *)
 (* ------------------------------------------------------------------ *)
-AliveProc(st, n) == st.pidf[n] > 0 /\ st.proc[n][st.pidf[n]] \notin {"exit0", "exit1"}
+DeadProc == {"exit0", "exit1", "killed"}    \* "killed": SIGKILL / OOM -- no marker written, the pid file stays, the lock is dropped
+AliveProc(st, n) == st.pidf[n] > 0 /\ st.proc[n][st.pidf[n]] \notin DeadProc
 
 Finish(st, i) ==
   (* l.639-650: listeners, failedJobs, done_handler in a helper thread *)
@@ -351,7 +352,7 @@ Notify(i, t) ==
 ThreadEnabled(st, kind, i) ==
   LET n == NameOf(i)
   IN CASE kind = "lockin" -> st.lockh[n] = "free"
-       [] kind \in {"procwait", "adoptwait"} -> st.proc[n][st.myproc[i]] \in {"exit0", "exit1"}
+       [] kind \in {"procwait", "adoptwait"} -> st.proc[n][st.myproc[i]] \in DeadProc
        [] OTHER -> TRUE
 
 ThreadDone(kind, i) ==
@@ -383,6 +384,8 @@ ProcExit(n, k) ==
                          !.proc[n][k] = IF code = 0 THEN "exit0" ELSE "exit1"]
      IN s' = IF s.proc[n][k] = "skip" THEN s1
              ELSE IF code = 0 THEN [s1 EXCEPT !.done[n] = TRUE, !.bodyends[n] = @ + 1]
+             ELSE IF code = 9      \* the workload says this run of the body is killed (SIGKILL, out of memory): nothing is cleaned up
+             THEN [s EXCEPT !.lockh[n] = "free", !.proc[n][k] = "killed"]
              ELSE [s1 EXCEPT !.failedm[n] = TRUE]
   /\ UNCHANGED wl
 
@@ -483,7 +486,7 @@ RmDone(n) ==
 (* Terminal states                                                      *)
 (* ------------------------------------------------------------------ *)
 ProgramEnded == s.mpc > Len(wl.program)
-NoProcessLeft == \A n \in Names : \A k \in DOMAIN s.proc[n] : s.proc[n][k] \in {"exit0", "exit1"}
+NoProcessLeft == \A n \in Names : \A k \in DOMAIN s.proc[n] : s.proc[n][k] \in DeadProc
 NewInsts == {i \in Insts : s.regres[i] = "new" /\ s.pc[i] \notin {"reg", "regdone"}}
 
 GoodEnd ==
@@ -591,7 +594,7 @@ HeldSum(t) == Sum([i \in Insts |-> IF t \in s.held[i] THEN wl.req[NameOf(i)][t] 
 Capacity == \A t \in Tokens : HeldSum(t) <= wl.cap[t] /\ s.avail[t] = wl.cap[t] - HeldSum(t)
 RunningWeight(t) ==
   Sum([i \in Insts |-> IF s.myproc[i] > 0 /\ s.pc[i] \in {"lockout", "procwait"}
-                          /\ s.proc[NameOf(i)][s.myproc[i]] \notin {"exit0", "exit1"}
+                          /\ s.proc[NameOf(i)][s.myproc[i]] \notin DeadProc
                        THEN wl.req[NameOf(i)][t] ELSE 0], Insts)
 RunningUnderCapacity == s.phase = "run" => \A t \in Tokens : RunningWeight(t) <= wl.cap[t]
 
